@@ -220,7 +220,19 @@ func FaceBinary(e *Env) {
 
 // cornerOf: the constant added to the loop position in the (innermost) index-position expression of v's slice.
 func cornerOf(e *Env, v ssa.Value) (int64, bool) {
+	return cornerOfBound(e, v, nil)
+}
+
+// cornerOfBound: as cornerOf; bind maps the parameters of the helper / closure in which v
+// lives to the caller's arguments (the loop position is then `argument + constant`).
+func cornerOfBound(e *Env, v ssa.Value, bind map[ssa.Value]ssa.Value) (int64, bool) {
 	var res []int64
+	counterSym := func(v ssa.Value) (Lin, bool) {
+		if phi, ok := v.(*ssa.Phi); ok && e.CounterOf(phi) != nil {
+			return linSym(phi), true
+		}
+		return Lin{}, false
+	}
 	BackSlice(v, func(x ssa.Value) bool {
 		cl, ok := x.(*ssa.Call)
 		if !ok {
@@ -232,10 +244,14 @@ func cornerOf(e *Env, v ssa.Value) (int64, bool) {
 		}
 		arg := Arg(cc, callee, 0)
 		l := LinEval(arg, func(v ssa.Value) (Lin, bool) {
-			if phi, ok := v.(*ssa.Phi); ok && e.CounterOf(phi) != nil {
-				return linSym(phi), true
+			if a, isBound := bind[v]; isBound {
+				inner := LinEval(a, counterSym)
+				if inner.Bad {
+					return Lin{Bad: true}, true
+				}
+				return inner, true
 			}
-			return Lin{}, false
+			return counterSym(v)
 		})
 		if !l.Bad && len(l.Coef) == 1 {
 			res = append(res, l.K)
@@ -268,6 +284,9 @@ func faceCorners(e *Env, fn *ssa.Function, construct string, lists []faceList) {
 		var facts []string
 		for k, it := range l.Items {
 			corner, ok := cornerOf(e, it.Val)
+			if it.InnerVal != nil {
+				corner, ok = cornerOfBound(e, it.InnerVal, it.Bind)
+			}
 			wantCorner := int64(k) / per
 			if !ok {
 				bad = fmt.Sprintf("cannot see which corner item %d comes from", k)
@@ -278,6 +297,9 @@ func faceCorners(e *Env, fn *ssa.Function, construct string, lists []faceList) {
 			}
 			if per == 2 {
 				got := accessorsIn(it.Val)
+				if it.InnerVal != nil {
+					got = accessorsIn(it.InnerVal)
+				}
 				want := AxisOrder[k%2]
 				if len(got) != 1 || got[0] != want {
 					bad = fmt.Sprintf("item %d carries component [%s], expected %s", k, strings.Join(got, ","), want)
@@ -312,111 +334,139 @@ func FaceAscii(e *Env) {
 		e.Undecide(fn, "AXIS-3", name, fn.Pos(), "no face loop found")
 		return
 	}
+	sawTex, sawPlain := false, false
 	for li, l := range loops {
-		// calls in the loop, in execution order
-		var calls []*ssa.Call
-		for _, b := range fn.Blocks {
-			if !l.Blocks[b] {
-				continue
-			}
-			for _, in := range b.Instrs {
-				if cl, ok := in.(*ssa.Call); ok {
-					if _, callee := CallTo(cl); callee != nil && ssau.IsMethod(callee, load_txt, "Writer", callee.Name()) {
-						calls = append(calls, cl)
-					}
-				}
-			}
-		}
-		ordered := true
-		for i := 0; i+1 < len(calls); i++ {
-			if !ssau.Before(calls[i], calls[i+1]) {
-				ordered = false
-			}
-		}
 		construct := fmt.Sprintf("%s/loop#%d", name, li+1)
-		if !ordered || len(calls) == 0 {
-			e.Undecide(fn, "AXIS-3", construct, l.Header.Instrs[0].Pos(), "text sink calls are not totally ordered")
+		paths, okPaths := loopPaths(l, 64)
+		if !okPaths || len(paths) == 0 {
+			e.Undecide(fn, "AXIS-3", construct, l.Header.Instrs[0].Pos(), "too many paths through the face loop")
 			continue
 		}
-		// segments: String("<n> ") followed by numbers
-		type seg struct {
-			n     int64
-			items []string
-		}
-		var segs []seg
-		newlines := 0
 		bad := ""
-		for _, cl := range calls {
-			cc, callee := CallTo(cl)
-			switch {
-			case isTxt(callee, "String"):
-				s, ok := ConstStr(cc.Args[1])
-				f := strings.Fields(s)
-				if !ok || len(f) != 1 {
-					bad = "a text literal on the face line is not a single count token"
-					continue
-				}
-				n, err := strconv.ParseInt(f[0], 10, 64)
-				if err != nil {
-					bad = "a text literal on the face line is not a number"
-					continue
-				}
-				segs = append(segs, seg{n: n})
-			case isTxt(callee, "Int"):
-				if len(segs) == 0 {
-					bad = "a number precedes the list count"
-					continue
-				}
-				_, c2 := CallTo(cc.Args[1])
-				item := "?"
-				if c2 != nil && ssau.IsMethod(c2, ModelingPath, "Tri", c2.Name()) {
-					item = c2.Name()
-				}
-				segs[len(segs)-1].items = append(segs[len(segs)-1].items, item)
-			case isTxt(callee, "Float64"):
-				if len(segs) == 0 {
-					bad = "a number precedes the list count"
-					continue
-				}
-				ax := accessorsIn(cc.Args[1])
-				corner := "?"
-				BackSlice(cc.Args[1], func(v ssa.Value) bool {
-					if _, c2 := CallTo(v); c2 != nil && ssau.IsMethod(c2, ModelingPath, "Tri", c2.Name()) {
-						if m := reTriAttr.FindStringSubmatch(c2.Name()); m != nil {
-							corner = "P" + m[1]
+		var facts []string
+		var pos token.Pos
+		for _, p := range paths {
+			// the text sink calls of this path, in execution order
+			var calls []*ssa.Call
+			for _, b := range p.blocks {
+				for _, in := range b.Instrs {
+					if cl, ok := in.(*ssa.Call); ok {
+						if _, callee := CallTo(cl); callee != nil && ssau.IsMethod(callee, load_txt, "Writer", callee.Name()) {
+							calls = append(calls, cl)
 						}
 					}
-					return true
-				})
-				segs[len(segs)-1].items = append(segs[len(segs)-1].items, corner+"."+strings.Join(ax, "|"))
-			case isTxt(callee, "NewLine"):
-				newlines++
+				}
 			}
+			if len(calls) == 0 {
+				continue // e.g. an error / skip path that writes nothing
+			}
+			if !pos.IsValid() {
+				pos = calls[0].Pos()
+			}
+			// is this path taken with / without texture coordinates?
+			texKnown, hasTex := texCondAt(append(append([]Lit{}, p.lits...), CondsAt(l.Header)...))
+			type seg struct {
+				n     int64
+				items []string
+			}
+			var segs []seg
+			newlines := 0
+			for _, cl := range calls {
+				cc, callee := CallTo(cl)
+				switch {
+				case isTxt(callee, "String"):
+					sv, ok := ConstStr(cc.Args[1])
+					f := strings.Fields(sv)
+					if !ok || len(f) != 1 {
+						bad = "a text literal on the face line is not a single count token"
+						continue
+					}
+					n, err := strconv.ParseInt(f[0], 10, 64)
+					if err != nil {
+						bad = "a text literal on the face line is not a number"
+						continue
+					}
+					segs = append(segs, seg{n: n})
+				case isTxt(callee, "Int"):
+					if len(segs) == 0 {
+						bad = "a number precedes the list count"
+						continue
+					}
+					_, c2 := CallTo(cc.Args[1])
+					item := "?"
+					if c2 != nil && ssau.IsMethod(c2, ModelingPath, "Tri", c2.Name()) {
+						item = c2.Name()
+					}
+					segs[len(segs)-1].items = append(segs[len(segs)-1].items, item)
+				case isTxt(callee, "Float64"):
+					if len(segs) == 0 {
+						bad = "a number precedes the list count"
+						continue
+					}
+					ax := accessorsIn(cc.Args[1])
+					corner := "?"
+					BackSlice(cc.Args[1], func(v ssa.Value) bool {
+						if _, c2 := CallTo(v); c2 != nil && ssau.IsMethod(c2, ModelingPath, "Tri", c2.Name()) {
+							if m := reTriAttr.FindStringSubmatch(c2.Name()); m != nil {
+								corner = "P" + m[1]
+							}
+						}
+						return true
+					})
+					segs[len(segs)-1].items = append(segs[len(segs)-1].items, corner+"."+strings.Join(ax, "|"))
+				case isTxt(callee, "NewLine"):
+					newlines++
+				}
+			}
+			var pf []string
+			for si, sg := range segs {
+				pf = append(pf, fmt.Sprintf("%d: %s", sg.n, strings.Join(sg.items, " ")))
+				if int64(len(sg.items)) != sg.n {
+					bad = fmt.Sprintf("list %d announces %d items, %d numbers follow", si, sg.n, len(sg.items))
+				}
+				var want []string
+				if si == 0 {
+					want = []string{"P1", "P2", "P3"}
+				} else {
+					want = []string{"P1.X", "P1.Y", "P2.X", "P2.Y", "P3.X", "P3.Y"}
+				}
+				if strings.Join(sg.items, " ") != strings.Join(want, " ") {
+					bad = fmt.Sprintf("list %d is written as [%s], expected [%s]", si, strings.Join(sg.items, " "), strings.Join(want, " "))
+				}
+			}
+			if newlines != 1 {
+				bad = fmt.Sprintf("%d line breaks per face (expected 1): the reader consumes one line per face", newlines)
+			}
+			// the texcoord list is written exactly when the header declares it
+			switch {
+			case len(segs) == 2 && !(texKnown && hasTex):
+				bad = "a face line with a texture-coordinate list is written on a path not guarded by HasFloat2Attribute(TexCoord), the condition under which the header declares that list"
+			case len(segs) == 1 && texKnown && hasTex:
+				bad = "a face line without the texture-coordinate list is written although the header declares it (HasFloat2Attribute(TexCoord) holds on this path)"
+			case len(segs) == 0 || len(segs) > 2:
+				bad = fmt.Sprintf("%d lists on a face line (expected 1 or 2)", len(segs))
+			}
+			if len(segs) == 2 {
+				sawTex = true
+			} else if len(segs) == 1 {
+				sawPlain = true
+			}
+			facts = append(facts, strings.Join(pf, " | "))
 		}
-		var facts []string
-		for si, s := range segs {
-			facts = append(facts, fmt.Sprintf("%d: %s", s.n, strings.Join(s.items, " ")))
-			if int64(len(s.items)) != s.n {
-				bad = fmt.Sprintf("list %d announces %d items, %d numbers follow", si, s.n, len(s.items))
-			}
-			var want []string
-			if si == 0 {
-				want = []string{"P1", "P2", "P3"}
-			} else {
-				want = []string{"P1.X", "P1.Y", "P2.X", "P2.Y", "P3.X", "P3.Y"}
-			}
-			if strings.Join(s.items, " ") != strings.Join(want, " ") {
-				bad = fmt.Sprintf("list %d is written as [%s], expected [%s]", si, strings.Join(s.items, " "), strings.Join(want, " "))
-			}
-		}
-		if newlines != 1 {
-			bad = fmt.Sprintf("%d line breaks per face (expected 1): the reader consumes one line per face", newlines)
+		sort.Strings(facts)
+		if !pos.IsValid() {
+			pos = l.Header.Instrs[0].Pos()
 		}
 		if bad != "" {
-			e.Violate(fn, "AXIS-3", construct, calls[0].Pos(), bad, facts...)
+			e.Violate(fn, "AXIS-3", construct, pos, bad, facts...)
 		} else {
-			e.Hold(fn, "AXIS-3", construct, calls[0].Pos(), facts...)
+			e.Hold(fn, "AXIS-3", construct, pos, facts...)
 		}
+	}
+	if !sawTex || !sawPlain {
+		e.Violate(fn, "HDR-1", name+"/texcoord-list", fn.Pos(), "the ASCII face writer does not have both forms of a face line (with and without the texture-coordinate list the header may declare)")
+	} else {
+		e.Hold(fn, "HDR-1", name+"/texcoord-list", fn.Pos(), "texcoord list written exactly under HasFloat2Attribute(TexCoord)")
 	}
 }
 
